@@ -135,6 +135,9 @@ def directed(rng, probes=False):
         # two callback handlers return together: their replies go out one after the other, never at once (explicit in-operation probe)
         add('cb-two-replies-%d' % v, {'callback': True}, [peer(('call', 7, False)), peer(('call', 8, False)), op('o1'), D, dict(a='cbret', id='7', out=['ok', 'err:7', 'ok'][v]), dict(a='cbret', id='8'),
                                                         dict(a='probe', kind='send'), D, peer(R(1)), D])
+        # the reader stops the client (Recv failed) while operations are about to send: with a goroutine held inside Close nothing else touches the channel
+        add('reader-stop-vs-send-%d' % v, {}, [op('o1'), D, [dict(a='recverr'), dict(a='peerclose'), dict(a='recvclosing')][v], op('o2'), op('o3', 'notify'), dict(a='probe', kind='close'), D])
+        add('close-vs-send-%d' % v, {'callback': bool(v % 2)}, [op('o1'), D, op('o2', 'batch', [False, True]), dict(a='close'), dict(a='probe', kind='close'), D, dict(a='peerclose'), D])
         add('eof-callback-%d' % v, {'callback': True}, [peer(('call', 7, False)), D, dict(a='peerclose'), D, dict(a='close'), D, dict(a='cbret', id='7'), D])
         add('close-callback-%d' % v, {'callback': True, 'recvUnblocks': e}, [op('o1'), peer(('call', 7, False)), D, dict(a='close'), D, dict(a='peerclose'), D, dict(a='cbret', id='7'), D])
         add('close-twice-%d' % v, {'callback': True}, [peer(('call', 7, False)), D, dict(a='recverr'), D, dict(a='close'), D, dict(a='cbret', id='7'), D])
